@@ -109,6 +109,15 @@ def soups():
     alac_desc = cck(b"desc", struct.pack(">d4sIIIII", 44100.0, b"alac", 1, 0, 4096, 2, 0))
     out.append(("caf_alac_no_pakt", b"caff" + struct.pack(">HH", 1, 0) + alac_desc + cck(b"kuki", b"\0" * 24) + cck(b"data", struct.pack(">I", 0) + pcm)))
     # W64, AU, VOC, 8SVX, NIST, PAF, IRCAM, headerless odds
+    # NIST Sphere: text header; fields missing or zero
+    def nist(lines):
+        h = ("NIST_1A\n   1024\n" + "".join(l + "\n" for l in lines) + "end_head\n").encode()
+        return h + b"\0" * (1024 - len(h)) + pcm
+    full = ["channel_count -i 2", "sample_rate -i 8000", "sample_n_bytes -i 2", "sample_sig_bits -i 16", "sample_coding -s3 pcm", "sample_byte_format -s2 01", "sample_count -i 32"]
+    out.append(("nist_zero_channels", nist(["channel_count -i 0"] + full[1:])))
+    out.append(("nist_no_channel_count", nist(full[1:])))
+    out.append(("nist_zero_bytes", nist(full[:2] + ["sample_n_bytes -i 0"] + full[3:])))
+    out.append(("nist_ulaw_no_rate", nist(["channel_count -i 1", "sample_n_bytes -i 1", "sample_coding -s4 ulaw", "sample_count -i 100"])))
     out.append(("au_basic", b".snd" + struct.pack(">IIIII", 28, 0xFFFFFFFF, 3, 8000, 2) + b"info" + pcm))
     out.append(("au_g721", b".snd" + struct.pack(">IIIII", 24, 60, 23, 8000, 1) + bytes(range(60))))
     out.append(("voc_blocks", b"Creative Voice File\x1a" + struct.pack("<HHH", 26, 0x010A, 0x1129) + bytes([1]) + struct.pack("<I", 34)[:3] + bytes([156, 0]) + bytes(range(32)) +
@@ -145,6 +154,22 @@ def dup_chunks(data):
         for (a, b) in spans:
             if b - a <= 40000:
                 out.append(data[:b] + data[a:b] + data[b:])
+    return out
+
+
+def field_sweep(data, upto, full=True):
+    """every 1 / 2 / 4 byte field of the first `upto` bytes forced to all zeros and to all ones: zero channel counts, widths, rates, sizes
+    (full=False: only the 4 byte fields, only zeros)"""
+    out = []
+    for off in range(0, min(len(data), upto)):
+        if not full:
+            if off + 4 <= len(data):
+                out.append(data[:off] + b"\0" * 4 + data[off + 4:])
+            continue
+        for w in (1, 2, 4):
+            if off + w <= len(data):
+                out.append(data[:off] + b"\0" * w + data[off + w:])
+                out.append(data[:off] + b"\xff" * w + data[off + w:])
     return out
 
 
